@@ -42,3 +42,22 @@ Print Assumptions C20_trace_inclusion.
 Theorem C20_hyps_satisfiable : exists log, ids_distinct log /\ closed log /\ acyclic log /\ length log >= 5.
 Proof. exact hyps_satisfiable. Qed.
 Print Assumptions C20_hyps_satisfiable.
+
+(* "given in any order": the hypotheses of C20_topo are invariant under every
+   permutation of the log, so the theorem covers every input order of every
+   admissible log. *)
+Theorem C20_any_order : forall log log', Permutation log log' ->
+  ids_distinct log -> closed log -> acyclic log ->
+  ids_distinct log' /\ closed log' /\ acyclic log'.
+Proof. exact hyps_perm_invariant. Qed.
+Print Assumptions C20_any_order.
+
+(* The edge of the quantifier, machine-checked on the model of the code as it
+   is: a log that lists one revision twice gets that revision yielded twice,
+   and a log that lacks a parent silently loses the child (and everything
+   above it).  Neither hypothesis of C20_topo can be dropped. *)
+Theorem C20_hypotheses_needed :
+  (exists log out, closed log /\ acyclic log /\ toposort fifo log = TopoOk out /\ ~ NoDup (map rid out)) /\
+  (exists log out, ids_distinct log /\ acyclic log /\ toposort fifo log = TopoOk out /\ length out < length log).
+Proof. exact hypotheses_needed. Qed.
+Print Assumptions C20_hypotheses_needed.
